@@ -15,9 +15,12 @@ def cargo_env():
     return env
 
 
-def cargo_json(crate, args, jobs=16):
+def cargo_json(crate, args, jobs=16, extra_env=None):
     cmd = ["cargo", "build", "--offline", "--keep-going", "--message-format=json", f"-j{jobs}"] + args
-    p = subprocess.run(cmd, cwd=crate, env=cargo_env(), stdout=subprocess.PIPE, stderr=subprocess.PIPE, text=True)
+    env = cargo_env()
+    if extra_env:
+        env.update(extra_env)
+    p = subprocess.run(cmd, cwd=crate, env=env, stdout=subprocess.PIPE, stderr=subprocess.PIPE, text=True)
     msgs = []
     for line in p.stdout.splitlines():
         if line.startswith("{"):
